@@ -782,6 +782,7 @@ static void gen_transport(vh_rng_t *rng)
     s->default_ttl                    = 300;
     s->ck_mode                        = 1;
     memset(s->ck_secret, 0x70 + i, 8);
+    s->tc_cut                         = vh_chance(rng, 1, 3);
   }
   app_cfg.flags = ARES_FLAG_EDNS;
   if (vh_chance(rng, 1, 2)) {
